@@ -1441,11 +1441,57 @@ func lifecycleConcurrent(idx int64, r *rand.Rand) {
 	rt.Distinct(fmt.Sprintf("lifeconc|%s|%v", pkg, scripts))
 }
 
+// externalSetCase: a limiter over a limit that is moved from outside (SettableLimit.SetLimit).  Once a sample window has
+// closed after a set, the limit gauge the algorithm publishes and the limit gauge the strategy publishes (what is
+// enforced) report the same number - the new one.
+func externalSetCase(idx int64, r *rand.Rand) {
+	regL, regS := inject.NewRecRegistry(), inject.NewRecRegistry()
+	sl := limit.NewSettableLimit("own", 1+r.IntN(20), regL)
+	var st core.Strategy
+	kind := "simple"
+	if r.IntN(2) == 0 {
+		st = strategy.NewSimpleStrategyWithMetricRegistry(1+r.IntN(20), regS)
+	} else {
+		st, kind = strategy.NewPreciseStrategyWithMetricRegistry(1+r.IntN(20), regS), "precise"
+	}
+	dl, err := limiter.NewDefaultLimiter(sl, 1, 1, 0, 10, st, limit.NoopLimitLogger{}, core.EmptyMetricRegistryInstance)
+	if err != nil {
+		panic(err)
+	}
+	var sets []int
+	for step := 0; step < 5; step++ {
+		v := 1 + r.IntN(20)
+		sets = append(sets, v)
+		sl.SetLimit(v)
+		for i := 0; i < 40; i++ { // a whole window goes by
+			l, ok := dl.Acquire(context.Background())
+			if !ok {
+				break
+			}
+			for k := 0; k < 50; k++ {
+				runtime.Gosched()
+			}
+			l.OnSuccess()
+		}
+		gl, okL := regL.Gauge(core.PrefixMetricWithName(core.MetricLimit, "own"))
+		gs, okS := regS.Gauge(core.MetricLimit)
+		rt.Count("limit_gauges_compared_after_an_external_set", 1)
+		if !okL || !okS || int(gl) != v || int(gs) != v {
+			rt.Violation("C20/"+kind+"/limit-gauges-disagree-with-the-limit-set-from-outside-a-window-ago", idx, rt.J{"explicit_sets": sets,
+				"algorithm_limit_gauge": gl, "strategy_limit_gauge(enforced)": gs, "registered": []bool{okL, okS}})
+			return
+		}
+	}
+	rt.Distinct(fmt.Sprintf("ext|%s|%v", kind, sets))
+}
+
 func TestCheck(t *testing.T) {
 	rt.Cases(2400, 240000, func(idx int64) {
 		r := rt.CaseRand(20, idx)
 		rt.Case()
 		switch m := idx % 24; {
+		case idx%48 == 29:
+			externalSetCase(idx, r)
 		case idx%48 == 19:
 			gaugePollCase(idx, r)
 		case idx%48 == 17:
